@@ -615,7 +615,10 @@ def check_core(prop, tier, seed):
     samples = []
     for f in tr['files']:
         for o in f['observe']['obs']:
-            if prefix_of(o['prop']) != prop:
+            # the property's own formulas; for the multi-process properties also the per-process
+            # formulas they are judged by (CORE lists them)
+            if prefix_of(o['prop']) != prop and not (GROUP.get(prop) == 'multi' and o['prop'] in CORE[prop][0] + CORE[prop][1]
+                                                      and '/multi' in f['file']):
                 continue
             if o['kind'] == 'KNOWN' and all(k in kf and kf[k]['status'] == 'open' for k in o['kf']):
                 for k in o['kf']:
